@@ -66,9 +66,9 @@ def build(tier, seed):
     for n in ((2, 3) if quick else (2, 3, 4)):
         for levels in (1, 2):
             names = ["g", "h"][:levels]
-            # quick tier, n=3 with two levels: no divider values; thorough n=4 with two levels: dividers on the outer level only
-            # (both levels: ~3000 paths, not decided within the budget); otherwise on every level
-            div_levels = [] if (quick and n == 3 and levels == 2) else ([0] if (n == 4 and levels == 2) else list(range(levels)))
+            # quick tier, n=3 with two levels: no divider values; thorough n=4 with two levels: no divider values either
+            # (with them: > 2400 paths, not decided within the budget); otherwise on every level
+            div_levels = [] if (quick and n == 3 and levels == 2) else ([] if (n == 4 and levels == 2) else list(range(levels)))
             ksig = ", ".join("k%d_%d: str" % (l, i) + (", d%d_%d: bool" % (l, i) if l in div_levels else "")
                              for l in range(levels) for i in range(n))
             pre = ["len(k%d_%d) == 1" % (l, i) for l in range(levels) for i in range(n)]
